@@ -10,7 +10,7 @@
 //!            kind{E,S1,S2,Cp,Cn,Tp,Fp,Rp,K2} × lsb{−50,0,30} × advance{0,500,700}   (k = 2 quick, 3 thorough)
 //!   curated  every sequence of ≤ k glyphs over 11 (thorough 15) hand-picked (kind,lsb,advance) options (k = 4 / 5)
 //!   runs     every sequence of ≤ k glyphs over {E,S1} × advance{0,500,700}, with and without an own empty
-//!            zero-width .notdef, first or last in public.glyphOrder (k = 5 / 6) — trailing equal-advance runs
+//!            zero-width .notdef, first or last in public.glyphOrder (k = 5 / 6; with own .notdef 4 / 5) — trailing runs
 //!   cmap     every subset of 7 codepoints × {ascending, descending, all on one glyph}
 //!   ranges   first/last codepoint (and modelled outer neighbours) of 63 ulUnicodeRange blocks, alone / with U+0041
 //!   vert     vertical metrics on: ≤ k glyphs over 8 options × height{none,500,1200} (k = 3 / 4)
